@@ -6,6 +6,7 @@
   (`SMGo.Gen.SM3Const.tt`).
 -/
 import SMGo.Spec.Bytes
+import SMGo.Spec.SM3
 namespace SMGo.Model.SM3
 open SMGo
 
@@ -140,17 +141,11 @@ def sum (tt : List W32) (s : St) (inp : Bytes) : Bytes := inp ++ (checkSum tt s)
 def sumSM3 (tt : List W32) (data : Bytes) : Bytes :=
   (checkSum tt (write tt (reset zero) data).1).1
 
-inductive Op where
-  | write (d : Bytes)
-  | sum (inp : Bytes)
-  | reset
-deriving DecidableEq, Repr
-
-inductive Out where
-  | wrote (n : Nat)
-  | digest (b : Bytes)
-  | none
-deriving DecidableEq, Repr
+/-- the calls of a history and their answers: the types the specification's `runHistory` uses
+    (only these two types are taken from `SMGo.Spec.SM3`; nothing of the model computes with the
+    specification) -/
+abbrev Op := Spec.SM3.Op
+abbrev Out := Spec.SM3.Out
 
 def step (tt : List W32) (s : St) : Op → St × Out
   | .write d => let (s', n) := write tt s d; (s', .wrote n)
